@@ -18,7 +18,19 @@ HARNESSES = [
     ("conc", True, None),
 ]
 
-HOOK_COMMITS = ["verification hooks (guard OMPL_VERIF): shared-state access events"]
+HOOK_SUBJECTS = ["verification hooks (guard OMPL_VERIF)"]
+
+
+def _hook_commits():
+    import subprocess
+    try:
+        out = subprocess.run(["git", "-C", "/repo", "log", "--format=%h %s"], capture_output=True, text=True).stdout
+    except OSError:
+        return HOOK_SUBJECTS
+    return [l.split(" ")[0] for l in out.splitlines() if any(l.split(" ", 1)[1].startswith(h) for h in HOOK_SUBJECTS)]
+
+
+HOOK_COMMITS = _hook_commits()
 
 CHECKS = {
     "C11": dict(
@@ -56,6 +68,19 @@ CHECKS["C08"] = dict(
     technique="TLA+ lattice model + TLC, model-generated case replay, scripted-validity replay of sampler state machines, TLC trace validation",
     design="3/C06-C08")
 
+CHECKS["C01"] = dict(
+    level="exploration",
+    text="TLC enumerates every planning configuration of the 3x3 cell world up to symmetry (5478: obstacle layout x start x "
+         "goal; model-determined facts: start/goal free, 8-reachability) and a bounded 4x4 part; a stratified sample (all of "
+         "them in the thorough tier's R^2 pass) is instantiated for all 41 registered planners in R^2, SE(2), R^3, SE(3), a "
+         "weighted compound, Reeds-Shepp and Dubins under evaluation budgets; every solve report carries facts from an "
+         "oracle independent of the planner (own validity predicate, dense re-sampling along interpolate, recomputed goal "
+         "distance, motion re-check) and is judged by TLC against PlannerContract.tla, which also re-validates each path on "
+         "the abstract map (free 8-connected cell walk from the start cell, reachability).",
+    note="2-D/3-D grid worlds; seeds, budgets, threshold/range/resolution classes sampled; oracle trusts "
+         "StateSpace::interpolate/distance (C06/C07).",
+    technique="TLA+ configuration model enumerated by TLC + TLC trace validation of recorded solve reports against a contract spec",
+    design="3/C01")
 CHECKS["C04"] = dict(
     level="model_checking",
     text="Ranking: SolutionSet.tla transcribes PlannerSolution::operator<; TLC proves it a strict weak order equal to the "
